@@ -95,11 +95,28 @@ def run(ctx):
     if ext:
         c = ctx.find_calls(ext, r"core::iter::traits::collect::Extend<.*>>::extend")
         ok = len(c) == 1 and ctx.expr(ext, c[0][1]["args"][0]) == "darling_core::error::Accumulator::errors(self)" and ctx.expr(ext, c[0][1]["args"][1]) == "a2"
+        if not c:
+            # the same appended one by one: `for e in iter { self.errors().push(e) }`, unconditionally
+            hs = [h for h in ctx.per_element(ext, r"^alloc::vec::Vec::<T, A>::push$") if h["form"] == "loop" and h["owner"] is ext]
+            if len(hs) == 1:
+                h = hs[0]
+                pblk = [b2 for b2, t2 in ctx.find_calls(ext, r"^alloc::vec::Vec::<T, A>::push$")][0]
+                guards = [sorted(a for a in d if "Iterator>::next(" not in a and "Iterator::next(" not in a) for d in ctx.pc_strs(ext, pblk)]
+                ok = ctx.expr(ext, h["t"]["args"][0]) == "darling_core::error::Accumulator::errors(self)" and "into_iter(a2)" in h["source"].replace("IntoIterator>::into_iter", "into_iter").replace("IntoIterator::into_iter", "into_iter") \
+                    and ("Iterator>::next(" in ctx.expr(ext, h["t"]["args"][1]) or "as Some).0" in ctx.expr(ext, h["t"]["args"][1])) and all(not g for g in guards)
+                c = [(pblk, h["t"])]
         ctx.ob("C05.extend.appends-live-vector", ext.key, "Vec::extend(errors(), iter)", ok, "calls: %s" % [(ctx.expr(ext, t["args"][0]), ctx.expr(ext, t["args"][1])) for _, t in c])
     f = ctx.fn(A + "errors")
     if f:
         rets = ctx.ret_values(f)
-        ctx.ob("C05.errors.live-vector", f.key, "return", rets == ["(self.0 as Some).0"], "returns %s" % rets)
+        # `match &mut self.0 { Some(v) => v, None => panic!() }` or `self.0.as_mut().unwrap_or_else(|| <diverges>)`
+        okr = rets == ["(self.0 as Some).0"]
+        if not okr and len(rets) == 1:
+            m = re.match(r"^core::option::Option::<T>::unwrap_or_else\(self\.0, closure ([^\[]+)\[\]\)$", rets[0])
+            if m:
+                cl = [c for c in ctx.closures_of(f) if c.key == m.group(1)]
+                okr = len(cl) == 1 and cl[0].local_ty(0) == "!" or len(cl) == 1 and not [b2 for b2 in cl[0].normal_blocks() if cl[0].term(b2)["k"] == "return"]
+        ctx.ob("C05.errors.live-vector", f.key, "return", okr, "returns %s" % rets)
     # ---------------------------------------------------------------- into_inner / checkpoint / default
     f = ctx.fn(A + "into_inner")
     if f:
